@@ -20,6 +20,37 @@ fn value() -> impl Strategy<Value = f32> + Clone {
 
 /// vectors whose elements share a magnitude class (all small / all large / mixed)
 fn vec_len(n: usize) -> impl Strategy<Value = Vec<f32>> + Clone {
+    (dense_len(n), prop_oneof![5 => Just(0u8), 2 => Just(1u8), 1 => Just(2u8)], any::<u32>(), any::<u64>()).prop_map(|(v, mode, blocks, comps)| {
+        // sparse vectors: whole aligned blocks of eight and / or single components set to zero
+        let mut v = v;
+        if mode >= 1 {
+            for (i, x) in v.iter_mut().enumerate() {
+                if (blocks >> ((i / 8) % 32)) & 1 == 1 {
+                    *x = 0.0;
+                }
+            }
+        }
+        if mode == 2 {
+            for (i, x) in v.iter_mut().enumerate() {
+                if (comps >> (i % 64)) & 1 == 1 {
+                    *x = 0.0;
+                }
+            }
+        }
+        v
+    })
+}
+
+/// any finite bit pattern: subnormals, signed zeros, extreme exponents
+fn raw_len(n: usize) -> impl Strategy<Value = Vec<f32>> + Clone {
+    proptest::collection::vec(prop_oneof![
+        4 => any::<u32>().prop_map(f32::from_bits).prop_filter_map("finite", |x| if x.is_finite() { Some(x) } else { None }),
+        2 => (0u32..0x0080_0000, any::<bool>()).prop_map(|(m, s)| f32::from_bits(m | if s { 0x8000_0000 } else { 0 })),
+        1 => prop_oneof![Just(0.0f32), Just(-0.0f32), Just(f32::MAX), Just(f32::MIN), Just(f32::MIN_POSITIVE), Just(-f32::MIN_POSITIVE)],
+    ], n)
+}
+
+fn dense_len(n: usize) -> impl Strategy<Value = Vec<f32>> + Clone {
     (proptest::collection::vec(value(), n), prop_oneof![4 => Just(1.0f32), 1 => Just(1e-3f32), 1 => Just(1e-2f32), 1 => Just(30.0f32)], any::<bool>()).prop_map(|(v, scale, unit)| {
         if scale == 1.0 {
             v
@@ -59,7 +90,10 @@ pub fn check_roundtrip(c: &RoundTrip) -> CaseResult {
         ensure!(back.len() == expect.len(), "roundtrip-length", "length {} packs to {} values, expected {}", c.v.len(), back.len(), expect.len());
         ensure!(bits(&back) == bits(&expect), "roundtrip-values", "round trip of {:?} gives {:?}", c.v, back);
     }
-    Ok(CaseOk::new(c.v.len() % 8 != 0).label_if(c.v.len() % 8 == 0, "lane_multiple"))
+    Ok(CaseOk::new(c.v.len() % 8 != 0)
+        .label_if(c.v.len() % 8 == 0, "lane_multiple")
+        .label_if(c.v.iter().any(|x| *x != 0.0 && !x.is_normal()), "subnormal_component")
+        .label_if(c.v.iter().any(|x| x.to_bits() == 0x8000_0000), "negative_zero"))
 }
 
 #[derive(Clone, Debug, Serialize, Deserialize)]
@@ -185,6 +219,7 @@ fn check_dist_with(c: &DistCase, r: &DistCase) -> CaseResult {
     Ok(CaseOk::new(c.a.len() % 8 != 0 || diff_len)
         .label_if(diff_len, "different_packed_lengths")
         .label_if(cos_checked, "cosine_checked")
+        .label_if(pad8(&r.a).chunks(8).zip(pad8(&r.b).chunks(8)).any(|(x, y)| x.iter().all(|v| *v == 0.0) != y.iter().all(|v| *v == 0.0)), "zero_block_against_nonzero_block")
         .label_if(same_packed, "triangle_checked"))
 }
 
@@ -198,11 +233,12 @@ fn dist_case(la: usize, lb: usize, lc: usize) -> impl Strategy<Value = DistCase>
 }
 
 pub fn run(env: &Env, rep: &Report) {
-    rep.set_rule("every vector length 0..=130 (exhaustive over lengths) x random values (1e-3..1e3 with signs, zeros, small integers); distance cases over all length pairs drawn from 0..=130 incl. different lengths, triples for the triangle inequality, positive scalings. Non-trivial: length not a multiple of 8 or two different packed lengths; distinct = distinct serialized case");
+    rep.set_rule("every vector length 0..=130 (exhaustive over lengths) x random values (1e-3..1e3 with signs, zeros, small integers; sparse variants with whole aligned blocks or single components zeroed; for the round trip also arbitrary finite bit patterns incl. subnormals and signed zeros); distance cases over all length pairs drawn from 0..=130 incl. different lengths, triples for the triangle inequality, positive scalings. Non-trivial: length not a multiple of 8 or two different packed lengths; distinct = distinct serialized case");
     rep.assume("reference: scalar f64 formulas on zero-padded vectors truncated to the common packed prefix; relative tolerance 1e-4 (conditioning-aware for cosine)");
     let per_len = env.tier.pick(1500u32, 20000);
     for len in 0..=130usize {
         run_generated(rep, "roundtrip", vec_len(len).prop_map(|v| RoundTrip { v }), per_len, mix(rep.seed, len as u64), check_roundtrip);
+        run_generated(rep, "roundtrip", raw_len(len).prop_map(|v| RoundTrip { v }), per_len / 2, mix(rep.seed, 1000 + len as u64), check_roundtrip);
     }
     rep.note("roundtrip", "lengths 0..=130 each enumerated".into());
     // distances: every length for a (exhaustive), b of equal / neighbouring / random length
